@@ -31,6 +31,12 @@ def build(tier, ctx):
     for nm, d in fragment.corpus(ctx["repo"]):
         if fragment.has_loop(d):
             defs.append((nm, d))
+    # beyond F: loop bodies that begin with an inner loop (both loops share
+    # their start event), staged merges with loops
+    defs += [("FL", d) for d in fragment.F_leadloop(6 if tier == "quick"
+                                                     else 7)]
+    defs += [("FS", d) for d in fragment.staged_merge_family()
+             if fragment.has_loop(d)]
     tasks = []
     for i in range(0, len(defs), CHUNK):
         tasks.append({"defs": [(nm, dsl.to_list(d))
@@ -68,6 +74,12 @@ def check_one(defn, k, pi):
     sccs0 = [{e.event_type for e in s}
              for s in nx.strongly_connected_components(g0)
              if len(s) > 1 or any(g0.has_edge(n, n) for n in s)]
+    cyc_edges = set()
+    for comp in nx.strongly_connected_components(g0):
+        if len(comp) > 1 or any(g0.has_edge(n, n) for n in comp):
+            for u, v in g0.edges():
+                if u in comp and v in comp:
+                    cyc_edges.add((u.event_type, v.event_type))
     try:
         g = detect_loops(g0)
     except Exception as e:  # the real code failed: a finding, not a harness error
@@ -123,6 +135,13 @@ def check_one(defn, k, pi):
     for s in sccs0:
         if not any(s <= b for b in bodies):
             problems.append(("scc_not_in_body", sorted(s)))
+    # no cyclic dependency is lost: every edge of the input graph that lies
+    # on a cycle is an edge of some graph of the nesting (between the nodes
+    # that contain its end points) or the loop-back edge of a loop (source
+    # leads to the loop's end, target follows the loop's start)
+    lost = unexplained_cycle_edges(g, cyc_edges, LoopEvent)
+    if lost:
+        problems.append(("cycle_edge_lost", sorted(lost)[:4]))
     # reference knowledge: every loop body of the definition lies in a body
     observed = {t for j in jobs for _, t, _ in j}
     for body_types in pvcommon.loop_bodies(defn):
@@ -132,6 +151,49 @@ def check_one(defn, k, pi):
     return problems, {"states": st.states, "transitions": st.transitions,
                       "graphs": counts["graphs"], "loops": counts["loops"],
                       "jobs": len(jobs), "sccs": len(sccs0)}
+
+
+def unexplained_cycle_edges(top, cyc_edges, LoopEvent):
+    graphs = []   # (graph, {type: containing node})
+
+    def contained(n):
+        if isinstance(n, LoopEvent):
+            acc = set()
+            for m in n.sub_graph.nodes:
+                acc |= contained(m)
+            return acc
+        return {n.event_type}
+
+    def walk(g):
+        cmap = {}
+        for n in g.nodes:
+            for t in contained(n):
+                cmap[t] = n
+            if isinstance(n, LoopEvent):
+                walk(n.sub_graph)
+        graphs.append((g, cmap))
+    walk(top)
+    lost = set()
+    for u, v in cyc_edges:
+        ok = False
+        for g, cmap in graphs:
+            if u not in cmap or v not in cmap:
+                continue
+            nu, nv = cmap[u], cmap[v]
+            if nu is nv and isinstance(nu, LoopEvent):
+                continue      # decided deeper in the nesting
+            if nu is not nv and g.has_edge(nu, nv):
+                ok = True
+                break
+            starts = [n for n in g.nodes if n.event_type == '|||START|||']
+            ends = [n for n in g.nodes if n.event_type == '|||END|||']
+            if any(g.has_edge(s_, nv) for s_ in starts) and \
+                    any(g.has_edge(nu, e_) for e_ in ends):
+                ok = True
+                break
+        if not ok:
+            lost.add((u, v))
+    return lost
 
 
 def handle(task):
